@@ -617,11 +617,29 @@ func genSlip10() {
 		args := bt.callArgsInFunc("init", "secp256k1."+n)
 		s.def("hex"+n, "String", leanString(args))
 	}
-	s.src(bt, "koblitzCurve.IsOnCurve", "koblitzCurve.affineFromJacobian", "zForAffine", "koblitzCurve.Add", "koblitzCurve.addJacobian",
-		"koblitzCurve.Double", "koblitzCurve.doubleJacobian", "koblitzCurve.ScalarMult", "koblitzCurve.ScalarBaseMult", "init")
+	// the nine curve functions are translated as code by genSecp256k1Code (stage 10) and tied in Iota/Tie/SecpCode.lean: not
+	// pinned by text any more (a meaning-preserving rewrite re-proves); init() — the constants — stays pinned
+	s.src(bt, "init")
+	for _, n := range secpCodeFns {
+		pinnedFns[bt.method(n)] = true
+	}
 	s.rest(bt, "btccurve")
 	s.def("copiesIdentical", "Bool", boolLean(sameFile(filepath.Join(bt.dir, "secp256k1.go"), filepath.Join(bt2.dir, "secp256k1.go"))))
 	s.write()
+}
+
+// the functions of btccurve/secp256k1.go that genSecp256k1Code translates as code, callees first
+var secpCodeFns = []string{"koblitzCurve.IsOnCurve", "koblitzCurve.affineFromJacobian", "zForAffine", "koblitzCurve.doubleJacobian",
+	"koblitzCurve.addJacobian", "koblitzCurve.Add", "koblitzCurve.Double", "koblitzCurve.ScalarMult", "koblitzCurve.ScalarBaseMult"}
+
+// genSecp256k1Code: pkg/slip10/elliptic/internal/btccurve/secp256k1.go translated as code (stage 10, loops_big.go) into a
+// file of its own, so that a translation failure is confined to the ties that import it; Gen/Secp256k1.lean (genSlip10)
+// keeps the constants, the source pins and the fact that the exported twin pkg/slip10/btccurve is byte-identical.
+func genSecp256k1Code() {
+	bt := repoPkg("pkg/slip10/elliptic/internal/btccurve")
+	g := newGenHdr("Secp256k1Code", loopHeaderText+flowHeaderText+recvHeaderText+callHeaderText+bigHeaderText, "Iota.Model.GoBits")
+	g.raw(translateLoopFuncsNS(bt, "btccurve", secpCodeFns...))
+	g.write()
 }
 
 // callArgsInFunc finds `<lhs>, _ = new(big.Int).SetString("<hex>", 16)` in function fn and returns the hex literal.
